@@ -606,6 +606,42 @@ def splice_invariants(body, invariants, name):
 
 # ---------------------------------------------------------------- generated-file analysis
 
+def find_body_open(text, start):
+    """Index of the `{` that opens the body of the fn whose signature starts at `start` (Verus syntax: spec clauses may
+    contain braces).  Rule: a `{` at ()/[] depth 0 that comes before any requires/ensures/decreases/recommends keyword, or
+    otherwise the first `{` at depth 0 that is the first non-blank character of its line (template convention)."""
+    i = start
+    depth = 0
+    n = len(text)
+    in_spec = False
+    brace = 0
+    while i < n:
+        j = skip_noncode(text, i)
+        if j != i:
+            i = j
+            continue
+        c = text[i]
+        if c in "([":
+            depth += 1
+        elif c in ")]":
+            depth -= 1
+        elif depth == 0 and brace == 0 and re.match(r"(requires|ensures|decreases|recommends)\b", text[i:i + 12]) and not (text[i - 1].isalnum() or text[i - 1] == "_"):
+            in_spec = True
+        elif c == "{" and depth == 0:
+            if not in_spec:
+                return i
+            ls = text.rfind("\n", 0, i) + 1
+            if brace == 0 and text[ls:i].strip() == "":
+                return i
+            brace += 1
+        elif c == "}" and depth == 0 and in_spec:
+            brace -= 1
+        elif c == ";" and depth == 0 and brace == 0:
+            return -1
+        i += 1
+    return -1
+
+
 def scan_functions(text):
     """Return list of dicts(name, kind, start_line, end_line, sig_start, body_open) for every fn with a body."""
     res = []
@@ -616,8 +652,7 @@ def scan_functions(text):
         if not m:
             break
         # find the body
-        ob = first_brace_at_depth0(text, m.end())
-        semi = text.find(";", m.end())
+        ob = find_body_open(text, m.end())
         if ob < 0:
             i = m.end()
             continue
